@@ -203,3 +203,128 @@ Qed.
 Theorem nl_solve_no_return_lemma N T ss ssi prog U Tg shocks tol Up res :
   nl_solve 0 N T ss ssi prog U Tg shocks tol <> Converged Up res.
 Proof. unfold nl_solve; cbn [nl_loop]; discriminate. Qed.
+
+(** ---- the steady state computed along a well-formed order is consistent with every block ---- *)
+Lemma eval_ss_ext (s s' : nat -> Qc) e : (forall x, In x (evars e) -> s x = s' x) -> qeval_ss s e = qeval_ss s' e.
+Proof.
+  unfold qeval_ss. induction e as [x|c|k e IH|e IH|e IH|a IHa b IHb|a IHa b IHb|a IHa b IHb|a IHa b IHb|a IHa n]; intros H;
+    cbn [SimpleBlk.eval_ss evars] in *; try reflexivity;
+    try (rewrite IH by exact H; reflexivity);
+    try (rewrite IHa, IHb by (intros; apply H; apply in_or_app; auto); reflexivity).
+  - apply H. left; reflexivity.
+  - rewrite IHa by exact H. reflexivity.
+Qed.
+
+Lemma qlookup_upd_nth n x (l : tbl) k : (n < length l)%nat -> qlookup (upd_nth n x l) k = if Nat.eqb k n then x else qlookup l k.
+Proof. intros H. unfold qlookup. apply nth_upd_nth. exact H. Qed.
+
+Lemma ss_block_gen (ss : tbl) outs : forall s, (forall oe, In oe outs -> (fst oe < length s)%nat) ->
+  let r := fold_left (fun s oe => upd_nth (fst oe) (qeval_ss (qlookup ss) (snd oe)) s) outs s in
+  length r = length s /\
+  (forall x, ~ In x (map fst outs) -> qlookup r x = qlookup s x) /\
+  (NoDup (map fst outs) -> forall oe, In oe outs -> qlookup r (fst oe) = qeval_ss (qlookup ss) (snd oe)).
+Proof.
+  induction outs as [|oe outs IH]; intros s Hl; cbn [fold_left map].
+  - split; [reflexivity|]. split; [reflexivity | intros _ ? []].
+  - assert (Hl0 : (fst oe < length s)%nat) by (apply Hl; left; reflexivity).
+    destruct (IH (upd_nth (fst oe) (qeval_ss (qlookup ss) (snd oe)) s)) as (L & Hout & Hin).
+    { intros oe' H'. rewrite upd_nth_length by exact Hl0. apply Hl; right; exact H'. }
+    rewrite upd_nth_length in L by exact Hl0. split; [exact L|]. split.
+    + intros x Hx. rewrite Hout by (intros H'; apply Hx; right; exact H').
+      rewrite qlookup_upd_nth by exact Hl0. destruct (Nat.eqb_spec x (fst oe)) as [->|]; [exfalso; apply Hx; left; reflexivity | reflexivity].
+    + intros Hnd oe' [<-|H'].
+      * inversion Hnd as [|? ? Hni Hnd']; subst. rewrite Hout by exact Hni. rewrite qlookup_upd_nth by exact Hl0. rewrite Nat.eqb_refl. reflexivity.
+      * inversion Hnd as [|? ? Hni Hnd']; subst. apply Hin; assumption.
+Qed.
+
+Lemma ss_eval_untouched N : forall rest s, length s = N -> (forall b' o, In b' rest -> In o (outs_of b') -> (o < N)%nat) ->
+  length (ss_eval rest s) = N /\ forall x, (forall b', In b' rest -> ~ In x (outs_of b')) -> qlookup (ss_eval rest s) x = qlookup s x.
+Proof.
+  induction rest as [|b rest IH]; intros s Hl Hn; cbn [ss_eval fold_left]; [split; [exact Hl | reflexivity]|].
+  destruct (ss_block_gen s (sb_outs b) s) as (L & Hout & _).
+  { intros oe Hoe. rewrite Hl. apply (Hn b (fst oe)); [left; reflexivity | apply in_map; exact Hoe]. }
+  fold (ss_block s b) in *. fold (ss_eval rest (ss_block s b)).
+  destruct (IH (ss_block s b)) as (L' & Hun); [rewrite L; exact Hl | intros; eapply Hn; [right; eassumption | assumption] |].
+  split; [exact L'|]. intros x Hx. rewrite Hun by (intros; apply Hx; right; assumption).
+  apply Hout. apply (Hx b). left; reflexivity.
+Qed.
+
+Lemma wf_prog_outs_lt N : forall prog, wf_prog N prog -> forall b o, In b prog -> In o (outs_of b) -> (o < N)%nat.
+Proof.
+  induction prog as [|b0 rest IH]; intros Hwf b o Hb Ho; [destruct Hb|].
+  cbn [wf_prog] in Hwf. destruct Hwf as (_ & _ & Hlt & _ & Hrest). destruct Hb as [<-|Hb]; [apply Hlt; exact Ho | eapply IH; eassumption].
+Qed.
+
+Theorem ss_eval_consistent_lemma N : forall prog ss0, length ss0 = N -> wf_prog N prog -> ss_consistent (ss_eval prog ss0) prog.
+Proof.
+  induction prog as [|b rest IH]; intros ss0 Hl Hwf b' oe Hb' Hoe; [destruct Hb'|].
+  cbn [wf_prog] in Hwf. destruct Hwf as (Hvars & Hnd & Hlt & Hlater & Hrest).
+  cbn [ss_eval fold_left]. fold (ss_eval rest (ss_block ss0 b)).
+  destruct (ss_block_gen ss0 (sb_outs b) ss0) as (L & Hout & Hin).
+  { intros oe' H'. rewrite Hl. apply Hlt. apply in_map; exact H'. }
+  fold (ss_block ss0 b) in *.
+  destruct Hb' as [<-|Hb'].
+  - destruct (ss_eval_untouched N rest (ss_block ss0 b)) as (_ & Hun); [rewrite L; exact Hl | apply wf_prog_outs_lt; exact Hrest |].
+    rewrite Hun by (intros b2 Hb2 Ho; apply (proj2 (Hlater b2 (fst oe) Hb2 Ho)); apply in_map; exact Hoe).
+    rewrite (Hin Hnd oe Hoe). apply eval_ss_ext. intros x Hx.
+    pose proof (Hvars oe x Hoe Hx) as Hxin.
+    rewrite Hun by (intros b2 Hb2 Ho; apply (proj1 (Hlater b2 x Hb2 Ho)); exact Hxin).
+    apply Hout. intros Ho. apply (proj2 (Hlt x Ho)). exact Hxin.
+  - assert (Hc : ss_consistent (ss_eval rest (ss_block ss0 b)) rest) by (apply IH; [rewrite L; exact Hl | exact Hrest]).
+    exact (Hc b' oe Hb' Hoe).
+Qed.
+
+Lemma upd_nth_same (l : tbl) n : (n < length l)%nat -> upd_nth n (qlookup l n) l = l.
+Proof.
+  intros H. apply (nth_ext _ _ q0 q0); [apply upd_nth_length; exact H|].
+  intros k _. rewrite nth_upd_nth by exact H. destruct (Nat.eqb_spec k n) as [->|]; reflexivity.
+Qed.
+
+(** re-evaluating the DAG at a consistent table reproduces the table *)
+Theorem ss_eval_idempotent_lemma N prog ss : length ss = N -> (forall b o, In b prog -> In o (outs_of b) -> (o < N)%nat) ->
+  ss_consistent ss prog -> ss_eval prog ss = ss.
+Proof.
+  intros Hl Hlt Hc. unfold ss_eval.
+  assert (Hgen : forall bs, (forall b, In b bs -> In b prog) -> fold_left ss_block bs ss = ss).
+  { induction bs as [|b bs IH]; intros Hin; cbn [fold_left]; [reflexivity|].
+    assert (Hb : ss_block ss b = ss).
+    { unfold ss_block.
+      assert (Hg2 : forall outs, (forall oe, In oe outs -> In oe (sb_outs b)) ->
+                fold_left (fun s oe => upd_nth (fst oe) (qeval_ss (qlookup ss) (snd oe)) s) outs ss = ss).
+      { induction outs as [|oe outs IHo]; intros Ho; cbn [fold_left]; [reflexivity|].
+        rewrite (Hc b oe (Hin b (or_introl eq_refl)) (Ho oe (or_introl eq_refl))).
+        rewrite upd_nth_same; [apply IHo; intros; apply Ho; right; assumption|].
+        rewrite Hl. apply (Hlt b); [apply Hin; left; reflexivity | apply in_map; apply Ho; left; reflexivity]. }
+      apply Hg2; auto. }
+    rewrite Hb. apply IH. intros; apply Hin; right; assumption. }
+  apply Hgen; auto.
+Qed.
+
+(** ---- the boolean well-formedness test is sound ---- *)
+Lemma memb_In x l : memb x l = true <-> In x l.
+Proof.
+  unfold memb. rewrite existsb_exists. split.
+  - intros [y [Hy E]]. apply Nat.eqb_eq in E. subst. exact Hy.
+  - intros H. exists x. split; [exact H | apply Nat.eqb_refl].
+Qed.
+Lemma memb_false x l : memb x l = false -> ~ In x l.
+Proof. intros H Hin. apply memb_In in Hin. congruence. Qed.
+Lemma nodupb_NoDup l : nodupb l = true -> NoDup l.
+Proof.
+  induction l as [|x l IH]; cbn [nodupb]; intros H; [constructor|]. apply andb_prop in H. destruct H as [H1 H2].
+  constructor; [apply memb_false; apply negb_true_iff; exact H1 | apply IH; exact H2].
+Qed.
+Theorem wf_progb_sound N : forall prog, wf_progb N prog = true -> wf_prog N prog.
+Proof.
+  induction prog as [|b rest IH]; cbn [wf_progb wf_prog]; intros H; [exact I|].
+  repeat (apply andb_prop in H; destruct H as [H ?]).
+  match goal with Hr : wf_progb N rest = true |- _ => specialize (IH Hr) end.
+  rewrite forallb_forall in *.
+  split; [|split; [|split; [|split]]]; try assumption.
+  - intros oe x Hoe Hx. apply memb_In. match goal with Hv : forall x, In x (sb_outs b) -> _ |- _ => specialize (Hv oe Hoe); rewrite forallb_forall in Hv; apply Hv; exact Hx end.
+  - apply nodupb_NoDup; assumption.
+  - intros o Ho. match goal with Hv : forall x, In x (outs_of b) -> _ |- _ => specialize (Hv o Ho); apply andb_prop in Hv; destruct Hv as [Hv1 Hv2] end.
+    split; [apply Nat.ltb_lt; exact Hv1 | apply memb_false; apply negb_true_iff; exact Hv2].
+  - intros b' o Hb' Ho. match goal with Hv : forall x, In x rest -> _ |- _ => specialize (Hv b' Hb'); rewrite forallb_forall in Hv; specialize (Hv o Ho); apply andb_prop in Hv; destruct Hv as [Hv1 Hv2] end.
+    split; apply memb_false; apply negb_true_iff; assumption.
+Qed.
